@@ -229,6 +229,7 @@ func gen(t *rapid.T) Case {
 	c.Special = chance(t, "special", 35)
 	c.Chunked = chance(t, "chunked", 30)
 	c.LogVia = pick(t, "logvia", "", 4, "json", 1, "logrus", 2, "logrus-json", 1)
+	c.LogLevel = pick(t, "loglevel", "", 8, "debug", 6, "info", 2, "warn", 2, "error", 2)
 	c.DefTLS = pick(t, "deftls", "", 12, "disabled", 2, "insecure", 1, "enabled", 1)
 	c.DefRepoAuth = chance(t, "defrepoauth", 10)
 	c.DefHelper = chance(t, "defhelper", 5)
@@ -547,6 +548,30 @@ func gen(t *rapid.T) Case {
 			l := fmt.Sprintf("fault.group%d", k)
 			c.Faults = append(c.Faults, genFault(l, rapid.SampledFrom(group).Draw(t, l+".host"), []int{0, 0, 0, 0, 1, 1, 2, 2, 3, 4, 6}))
 		}
+	}
+	// a transport level failure (no HTTP answer) on a request that is sent once the client is warm: the
+	// retry after a challenge, a later request with the cached login, the token request with credentials
+	var authHosts []int
+	for i := range c.Hosts {
+		h := &c.Hosts[i]
+		if h.Unused {
+			continue
+		}
+		if k := h.Auth.Ch.Kind; k != "" && k != "none" {
+			authHosts = append(authHosts, i)
+			if h.Auth.Ch.hasBearer() && h.Auth.Ch.TokenHost >= 0 && h.Auth.Ch.TokenHost < len(c.Hosts) && h.Auth.Ch.TokenHost != i {
+				authHosts = append(authHosts, h.Auth.Ch.TokenHost)
+			}
+		}
+	}
+	if len(authHosts) > 0 && chance(t, "fault.warm", 30) {
+		f := FaultSpec{Host: rapid.SampledFrom(authHosts).Draw(t, "fault.warm.host"), Kind: pick(t, "fault.warm.kind", "reset-before", 3, "reset-after", 2, "truncate", 1)}
+		if c.Hosts[f.Host].Kind == "token" {
+			f.At = rapid.SampledFrom([]int{0, 0, 1, 2}).Draw(t, "fault.warm.at")
+		} else {
+			f.At = rapid.SampledFrom([]int{1, 1, 1, 2, 2, 3, 4, 5}).Draw(t, "fault.warm.at")
+		}
+		c.Faults = append(c.Faults, f)
 	}
 	if chance(t, "fault.any", 25) {
 		n := between(t, "fault.any.n", 1, 2)
